@@ -122,6 +122,13 @@ def cmd_run(name, tier, check):
     try:
         rc, out = sh(["git", "apply", os.path.join(d, "patch.diff")], wt)
         if rc != 0:
+            # the tree has moved on (e.g. a fix: commit touched the same lines): try hand-rebased variants
+            for alt in sorted(f for f in os.listdir(d) if f.startswith("patch.rebased") and f.endswith(".diff")):
+                rc, out = sh(["git", "apply", os.path.join(d, alt)], wt)
+                if rc == 0:
+                    print("using", alt)
+                    break
+        if rc != 0:
             print("patch does not apply:", out[-400:])
             return
         e = env()
